@@ -78,9 +78,9 @@ const char* SkipToMatchingQuote(const char* s) {
   assert((*s == '\'') || (*s == '"'));
   char quote = s[0];
   ++s;
-  while (*s != quote)
+  while (*s && *s != quote)
     ++s;
-  return ++s;
+  return *s ? ++s : s;      // the closing quote may be missing
 }
 
 struct Deleter {
@@ -272,7 +272,9 @@ std::string OptionHelper<std::string>::Parse(const char *&s, bool splitString) {
   if (quoted(s))
   {
     s = SkipToMatchingQuote(s);
-    return std::string(start + 1, s - start - 2);
+    // Exclude the closing quote if there is one.
+    const char *end = (s - start >= 2 && s[-1] == *start) ? s - 1 : s;
+    return std::string(start + 1, end);
   }
   else
   {
